@@ -5,7 +5,7 @@ id=C${r:2}
 for k in 1 2 3; do d=/tmp/wt/$r-out/ref$k; [ -f $d/patch.diff ] || continue; n=$((k+off)); mkdir -p /verif/refactors/$id-$n; cp $d/patch.diff $d/meta.json /verif/refactors/$id-$n/; [ -f $d/equiv_test.go ] && cp $d/equiv_test.go /verif/refactors/$id-$n/
 python3 - "$id-$n" "$@" <<'EOF'
 import json,sys
-d='/verif/refactors/'+sys.argv[1]; j=json.load(open(d+'/meta.json')); j['checks']=sys.argv[2:]; j['kind']='behaviour-preserving refactoring (sub-agent produced, round 3-5: loop/control-flow/data-flow restructurings; equivalence test included); the named checks must stay silent'
+d='/verif/refactors/'+sys.argv[1]; j=json.load(open(d+'/meta.json')); j['checks']=sys.argv[2:]; j['kind']='behaviour-preserving refactoring (sub-agent produced, rounds 3-6: loop/control-flow/data-flow restructurings; equivalence test included); the named checks must stay silent'
 json.dump(j,open(d+'/meta.json','w'),indent=1)
 EOF
 done
